@@ -285,7 +285,9 @@ PrescribedBad(kind, setFuel) ==
 
 \* ---- thermal ----
 NG    == A.ng
-TPoint(j) == <<26 * (j - 1) + 1, 13>>                       \* z_j = 2(j-1) + 1/13  (never on a block boundary: GridClear)
+\* z_1 = 0 (exactly the bottom of the lowest block: the window is inclusive), z_j = 2(j-1) + 1/13 for j > 1 (never on a
+\* moving block boundary: GridClear)
+TPoint(j) == IF j = 1 THEN RZero ELSE <<26 * (j - 1) + 1, 13>>
 TGrid == [j \in 1..NG |-> TPoint(j)]
 Breaks == {p \in 0..NG : p % BreakStep = 0}
 StepFields == UNION {{[j \in 1..NG |-> IF j <= p THEN tr[1] ELSE IF j <= q THEN tr[2] ELSE tr[3]] :
